@@ -52,6 +52,7 @@ type Contract struct {
 	NoAlloc     bool
 	AllocText   string
 	Opaque      bool
+	ExternPkg   string // contract of a function in another (unverified) package: trusted
 	Harness     bool
 	Inlines     []string
 	Bounded     string // description of the input-domain bound of a bounded harness
@@ -72,9 +73,24 @@ type Contract struct {
 }
 
 var clauseKW = map[string]bool{"func": true, "requires": true, "ensures": true, "modifies": true, "loop": true,
-	"trusted": true, "inline": true, "nilable": true, "noalloc": true, "alloc-bounded": true, "use": true, "decreases": true, "opaque": true, "harness": true, "inlines": true, "bounded": true}
+	"trusted": true, "inline": true, "nilable": true, "noalloc": true, "alloc-bounded": true, "use": true, "decreases": true, "opaque": true, "harness": true, "inlines": true, "bounded": true, "extern": true, "import": true}
 
 // parseContractFile extracts the contracts of one file.
+// contractImports collects `//@ import alias "path"` directives of a contract file.
+func contractImports(src []byte) []string {
+	var out []string
+	for _, ln := range strings.Split(string(src), "\n") {
+		t := strings.TrimSpace(ln)
+		if strings.HasPrefix(t, "//@") {
+			b := strings.TrimSpace(strings.TrimPrefix(t, "//@"))
+			if strings.HasPrefix(b, "import ") {
+				out = append(out, strings.TrimSpace(strings.TrimPrefix(b, "import ")))
+			}
+		}
+	}
+	return out
+}
+
 func parseContractFile(path string, src []byte) ([]*Contract, string, error) {
 	lines := strings.Split(string(src), "\n")
 	pkg := ""
@@ -115,6 +131,26 @@ func parseContractFile(path string, src []byte) ([]*Contract, string, error) {
 	var cur *Contract
 	for k, it := range items {
 		kw, text := it[0], it[1]
+		if kw == "import" {
+			continue
+		}
+		if kw == "extern" {
+			j := strings.Index(text, " func ")
+			if j < 0 {
+				return nil, "", fmt.Errorf("%s:%d: extern <import path> func <header>", path, itemLine[k])
+			}
+			c, err := parseHeader(pkg, strings.TrimSpace(text[j+6:]))
+			if err != nil {
+				return nil, "", fmt.Errorf("%s:%d: %v", path, itemLine[k], err)
+			}
+			c.ExternPkg = strings.TrimSpace(text[:j])
+			c.Trusted = true
+			c.Mangled = "ext_" + strings.NewReplacer("/", "_", ".", "_", "-", "_").Replace(c.ExternPkg) + "_" + c.Mangled
+			c.File, c.Line = path, itemLine[k]
+			cur = c
+			out = append(out, c)
+			continue
+		}
 		if kw == "func" {
 			c, err := parseHeader(pkg, text)
 			if err != nil {
